@@ -143,6 +143,16 @@ func classifyRead(r io.ReadCloser, status int, err error) string {
 func c18run(line string) (string, []string) {
 	c18once.Do(func() { c18orig = newOrigin() })
 	t := newToks(line)
+	if t.t[0] == "adapter" {
+		t.s()
+		flavour, objt := t.s(), t.s()
+		off, l := int64(t.u()), int64(t.u())
+		res, viol := c18adapter(flavour, objt, off, l, t.s())
+		if len(viol) == 0 {
+			return "ok", nil // judged by the oracle only
+		}
+		return res, viol
+	}
 	ctx := context.Background()
 	var viol []string
 	switch t.s() {
@@ -345,6 +355,20 @@ func c18(r *rng, tier string, o *out) {
 	sizes := []int{0, 1, 5, 8}
 	if tier == "thorough" {
 		sizes = []int{0, 1, 2, 5, 8, 16, 300}
+	}
+	// the cloud adapter over a stand-in provider driver (Azure and S3 flavours): exact bytes, tags, stale-tag refusals, missing objects
+	for _, fl := range []string{"az", "s3"} {
+		for _, sz := range []int{1, 5, 8} {
+			obj := r.bytes(sz)
+			for off := 0; off <= sz+1; off++ {
+				for length := 1; length <= sz+2; length += 1 + sz/4 {
+					for _, c := range []string{"n", "c", "s"} {
+						emit(fmt.Sprintf("adapter %s %s %d %d %s", fl, hx(obj), off, length, c), true, "adapter-"+fl)
+					}
+				}
+			}
+		}
+		emit(fmt.Sprintf("adapter %s missing 0 4 n", fl), true, "adapter-missing-"+fl)
 	}
 	for _, b := range []string{"m", "f", "h"} {
 		for _, sz := range sizes {
